@@ -105,7 +105,7 @@ zix_expand_environment_strings(ZixAllocator* const allocator,
               !(out = append_var(allocator, &len, out, t, string + s))) {
             return NULL;
           }
-          start = s = t;
+          start = s = s + t;
           break;
         }
       }
